@@ -112,6 +112,16 @@ def check_undo_range(rep, prog, rule, need_body):
                 # expected: rev(Range{lo_f, fwd_idx})
                 ok_shape = usrc[0] == "call" and usrc[1] == "core::iter::traits::iterator::Iterator::rev"
                 rng = usrc[2][0] if ok_shape else None
+                # element form: rev(iter(ARRAY[lo..hi])) / rev(iter(ARRAY[..hi])) hands out the words themselves
+                elem_array = None
+                if rng and rng[0] == "call" and rng[1] == "slice::iter":
+                    sl = _strip(rng[2][0])
+                    if sl[0] == "call" and sl[1].endswith("::index") and len(sl[2]) == 2:
+                        r_ = T.strip_refs(sl[2][1])
+                        if r_[0] == "agg" and "RangeTo::RangeTo" in r_[1]:
+                            elem_array, rng = _strip(sl[2][0]), ("agg", "adt:core::ops::range::Range::Range", (("c", 0, None), r_[2][0]))
+                        elif r_[0] == "agg" and r_[1].startswith("adt:core::ops::range::Range::Range"):
+                            elem_array, rng = _strip(sl[2][0]), r_
                 excl = bool(rng) and rng[0] == "agg" and rng[1].startswith("adt:core::ops::range::Range::Range")
                 if not ok_shape:
                     rep.violation(rule, "%s|undo-reversed" % key, "rollback does not iterate in reverse: " + T.show(usrc), ut["span"])
@@ -137,7 +147,12 @@ def check_undo_range(rep, prog, rule, need_body):
                               T.show(tm.operand(ft["args"][1])), T.show(tm.operand(ft["args"][2]))), ut["span"])
                 # same words: replace the index in both receivers and compare
                 uidx = ("f", ("as", unx[0], "Some"), 0, None)
-                same = _same_words(recv, fnext, src, urecv, uidx)
+                if elem_array is not None:
+                    fa = _forward_array(recv, fnext, src)
+                    same = (fa is not None and T.canon(fa) == T.canon(elem_array)
+                            and T.canon(_strip(urecv)) == T.canon(uidx))
+                else:
+                    same = _same_words(recv, fnext, src, urecv, uidx)
                 rep.check(same, rule, "%s|undo-same-words" % key, "rollback addresses the same array as the forward claim",
                           "rollback addresses different words: forward %s, rollback %s" % (T.show(recv), T.show(urecv)), ut["span"])
                 # every path from the failure edge to a return passes through the rollback loop's iterator creation
@@ -154,6 +169,29 @@ def check_undo_range(rep, prog, rule, need_body):
                 rep.check(not bypass, rule, "%s|undo-on-every-path" % key, "every failure path runs the rollback loop before returning",
                           "a path from the failed CAS reaches a return without entering the rollback loop", ft["span"])
     rep.floor(rule, "multi-word claim sites", n, 3)
+
+
+def _strip(t):
+    while True:
+        t = T.strip_refs(t)
+        if t[0] == "cast" or t[0] == "*":
+            t = t[1]
+            continue
+        return t
+
+
+def _forward_array(recv, fnext, src):
+    """The array whose elements the forward CAS addresses (enumerate(iter(ARRAY)) element, or ARRAY[i])."""
+    if src[0] == "call" and src[1].endswith("::enumerate"):
+        inner = _strip(src[2][0])
+        while inner[0] == "call" and (inner[1] == "slice::iter" or inner[1].endswith("into_iter")):
+            inner = _strip(inner[2][0])
+        return inner
+    fidx = T.canon(("f", ("as", fnext, "Some"), 0, None))
+    for x in T.walk(recv):
+        if x[0] == "idx" and T.canon(x[2]) == fidx:
+            return _strip(x[1])
+    return None
 
 
 def _same_words(recv, fnext, src, urecv, uidx):
